@@ -18,7 +18,24 @@ def monitor(sn, faulty):
 
 def tweak(rng, sc):
     from props import gen
-    return gen.gen_history(rng) if rng.random() < 0.5 else sc
+    sc = gen.gen_history(rng) if rng.random() < 0.5 else sc
+    st = sc["api"].get("set")
+    if st and sc["cache"].get("set") and rng.random() < 0.12:
+        # a name collision: no revision records the set's template, and the name the new revision would get
+        # (hash of the template and the stored collision count) is taken by a revision that records ANOTHER template —
+        # the set's own, an orphan, or somebody else's
+        k = st["tmpl"]
+        cc = st["status"].get("collisionCount") or 0
+        if (k, cc) in gen.HASH and (k, cc + 1) in gen.HASH:
+            other = rng.choice([t for t in (1, 2, 3) if t != k])
+            name = gen.revname(k, cc)
+            revs = [r for r in sc["api"]["revs"] if r["tmpl"] != k and r["name"] != name]
+            top = max([r["revision"] for r in revs] + [0])
+            o = rng.random()
+            owner = rc.ME if o < 0.7 else (None if o < 0.85 else rc.STALE)
+            revs.append(rc.mkrev(name, rng.choice([top + 1, max(top, 1)]), other, owner=owner, hashlabel=gen.HASH[(k, cc)]))
+            sc["api"]["revs"] = sorted(revs, key=lambda r: r["revision"])
+    return sc
 
 
 def patch_monitor(out):
